@@ -489,8 +489,8 @@ def campaign(seed, n, switches=frozenset()):
     return stats
 
 
-_CALL_RE = re.compile(r"\b(INT|VAL|INSTR|BUTTON|POINT)\(|(HEX\$|STRING\$)\(|(INKEY\$)")
-_PROC_OF = {"INT": "ecb_int", "VAL": "ecb_val", "INSTR": "ecb_instr", "BUTTON": "ecb_button", "POINT": "ecb_point", "HEX$": "ecb_hex", "STRING$": "ecb_string", "INKEY$": "inkey"}
+_CALL_RE = re.compile(r"\b(INT|VAL|INSTR|BUTTON|POINT|JOYSTK)\(|(HEX\$|STRING\$)\(|(INKEY\$)")
+_PROC_OF = {"JOYSTK": "ecb_joystk", "INT": "ecb_int", "VAL": "ecb_val", "INSTR": "ecb_instr", "BUTTON": "ecb_button", "POINT": "ecb_point", "HEX$": "ecb_hex", "STRING$": "ecb_string", "INKEY$": "inkey"}
 _TEMPLATE_NAMES = [["var", "A"], ["svar", "A"], ["var", "B"], ["var", "C"], ["var", "I"], ["var", "ZN"], ["svar", "ZS"], ["arr", "ZQ", []], ["var", "ZI"]]
 
 
@@ -503,6 +503,9 @@ def enumerate_contexts(part, nparts, switches=frozenset()):
 
     stats = Stats()
     stmts = [t.format(n="INT(A)", s="HEX$(A)") for t in c10.NUM_SLOTS] + [t.format(n="INT(A)", s="HEX$(A)") for t in c10.STR_SLOTS] + c07.EXTRA_STATEMENTS
+    # JOYSTK is kept out of the drawn programs by an open finding (its prologue and call interface, C10 / C14); what this enumeration checks -
+    # acceptance, one RUN per function, temporaries assigned before they are read - is not touched by that finding, so JOYSTK is included here
+    stmts += ["ZN=JOYSTK(0)", "ZN=JOYSTK(3)", "ZN=JOYSTK(A)", "ZN=JOYSTK(1-A)", "ZN=JOYSTK(INT(A))+JOYSTK(BUTTON(0))", "PRINT JOYSTK(A);JOYSTK(0)", "IF JOYSTK(A)>31 THEN 10"]
     k = 0
     for st_ in stmts:
         if st_.startswith(("INPUT ZQ", "READ ZQ", "ZN=VARPTR")) and "no_convertible_in_read_input_subscripts" in switches:
@@ -528,7 +531,11 @@ def enumerate_contexts(part, nparts, switches=frozenset()):
             stats.classes["context_" + cname] += 1
             stats.classes["status_" + status] += 1
             if status != "ok":
-                continue
+                # every template converts in every context on the unchanged tree (measured): a refusal or a crash means a statement of the fragment,
+                # and the calls in it, were lost
+                stats.fail("the tool does not translate %r (%s: %s): every statement template is translated in every block context on the unchanged tree"
+                           % (src, status, out[:120]), case)
+                return stats
             try:
                 static_check(out, _TEMPLATE_NAMES, case)
                 want = Counter()
